@@ -40,7 +40,7 @@ version_values = st.one_of(
 
 
 def program_strategy(cfg, cache):
-    return st.one_of(gen.tree_program(cfg, cache), gen.tree_program(cfg, cache), gen.program(cfg, cache))
+    return gen.weighted([(2, gen.tree_program(cfg, cache)), (1, gen.program(cfg, cache))])
 
 
 def enc_versions(v):
